@@ -131,14 +131,14 @@ def c12a(ck, prog):
         # (3) signature
         sigok, how = False, "no dominating true edge of the signature comparison"
         for fa in facts:
-            if fa.kind == "boolcall" and fa.truth and fa.call.name == "eq":
+            if fa.kind == "boolcall" and fa.truth and (fa.call.name == "eq" or fa.call.callee in prog.fns and len(fa.call.args) == 2 and fa.call.fn.locals[fa.call.dest[0]] == "bool" and "verified" in (fa.call.callee or "")):
                 sigok, how = check_sig_eq(f, prog, fa.call, nx)
                 how += " (switch bb%d)" % fa.sw_bb
             elif fa.kind == "boolphi" and fa.truth:
                 allok, hows, n = True, [], 0
                 for dbb, steps in fa.defs:
                     n += 1
-                    if not (steps and steps[-1][0] == "call" and steps[-1][1].name == "eq"):
+                    if not (steps and steps[-1][0] == "call" and (steps[-1][1].name == "eq" or steps[-1][1].callee in prog.fns)):
                         allok = False
                         hows.append("a definition of the flag is not an equality test (%s)" % guards.describe_origin(f, steps))
                         continue
@@ -181,14 +181,45 @@ def c12a(ck, prog):
         ck.ob(R, "token-source", ok, f.loc(sp[0].sp), "" if ok else "the split text is `%s`, not the get_token result" % d, how=d[:80])
 
 
+def whole_slice_helper(prog, h):
+    """Is local fn `h(a: &[u8], b: &[u8]) -> bool` an accepted whole-slice comparison (e.g. a constant-time one)?
+    Required shape: it returns false outright when the two lengths differ (`!=`), and every other result is the
+    value of one comparison of an accumulator / of the slices -- a length test weaker than `!=` is not accepted."""
+    if h.argc != 2 or not h.locals[0] == "bool":
+        return False, "helper is not fn(&[u8], &[u8]) -> bool"
+    lens_ne = False
+    for bb, kind, payload in paths.ret_sites(h):
+        if kind == "const" and guards.const_int(payload) == 0:
+            fs = [fa for fa in guards.facts_at(h, prog, bb) if fa.kind == "cmp"]
+            for fa in fs:
+                if fa.op == "Ne" and guards.is_len_origin(h, fa.lhs) and guards.is_len_origin(h, fa.rhs):
+                    def of(st):
+                        last = st[-1]
+                        if last[0] == "call" and last[1].args:
+                            return decision.describe_deep(h, last[1].args[0], 3)
+                        if last[0] == "un":
+                            return decision.describe_deep(h, last[1][2], 3)
+                        return guards.describe_origin(h, st)
+                    if {of(fa.lhs), of(fa.rhs)} == {"arg1", "arg2"}:
+                        lens_ne = True
+    if not lens_ne:
+        return False, "helper %s does not reject outright when the two lengths differ (`a.len() != b.len()`)" % h.name
+    return True, "helper %s: false unless lengths are equal, then one accumulated comparison" % h.name
+
+
 def check_sig_eq(f, prog, eqc, nx):
-    """eqc: the PartialEq::eq call of the signature comparison -> (ok, how)"""
-    if not re.search(r"PartialEq", eqc.callee or ""):
+    """eqc: the call comparing the MAC with the presented signature -> (ok, how)"""
+    if re.search(r"PartialEq", eqc.callee or ""):
+        tys = [t.replace("&", "").strip() for t in eqc.targs[:2]]
+        if not all(re.fullmatch(r"\[u8\]|alloc::vec::Vec<u8>|\[u8; \d+\]", t) for t in tys):
+            return False, "comparison is on %s, expected whole byte-slice equality" % tys
+    elif eqc.callee in prog.fns:
+        okh, howh = whole_slice_helper(prog, prog.fns[eqc.callee])
+        if not okh:
+            return False, howh
+    else:
         return False, "comparison is %s" % eqc.callee
-    tys = [t.replace("&", "").strip() for t in eqc.targs[:2]]
-    if not all(re.fullmatch(r"\[u8\]|alloc::vec::Vec<u8>|\[u8; \d+\]", t) for t in tys):
-        return False, "comparison is on %s, expected whole byte-slice equality" % tys
-    a, b = eqc.args
+    a, b = eqc.args[:2]
     ra, rb = paths.root_call(f, a), paths.root_call(f, b)
     if ra is not None and ra.name != "finalize":
         ra, rb, a, b = rb, ra, b, a
